@@ -309,6 +309,29 @@ class Fn:
                 out.append((n, self.tx(n.args[0])))
         return out
 
+    def structured(self):
+        """the whole output of a function whose body is straight-line code with simple loops over f.write statements:
+        the writes in order, a loop as a repetition.  None when the body has any other shape."""
+        def is_write(st):
+            return isinstance(st, ast.Expr) and isinstance(st.value, ast.Call) and ast.unparse(st.value.func) == "f.write" \
+                and len(st.value.args) == 1 and not st.value.keywords
+
+        def has_call_to_writer(st):
+            return any(isinstance(n, ast.Call) and (ast.unparse(n.func) in ("f.write", "_export", "_export_subgraph")) for n in ast.walk(st))
+        parts = []
+        for st in self.fn.body:
+            if is_write(st):
+                parts.append(self.tx(st.value.args[0]))
+            elif isinstance(st, ast.For) and not st.orelse and all(is_write(x) for x in st.body):
+                parts.append(("Star", ("Cat", [self.tx(x.value.args[0]) for x in st.body])))
+            elif isinstance(st, (ast.Assign, ast.ImportFrom, ast.Import)) and not has_call_to_writer(st):
+                continue
+            elif isinstance(st, ast.Expr) and isinstance(st.value, ast.Constant):
+                continue
+            else:
+                return None
+        return ("Cat", parts)
+
     def returns(self):
         rs = [n for n in self.nodes if isinstance(n, ast.Return) and n.value is not None]
         need(rs, "method %s returns nothing" % self.fn.name)
@@ -415,6 +438,29 @@ def renderer_doc(tree, clsname, consts, mm_fn):
     return ("Cat", [txs[0], ("Star", ("Alt", txs[1:-1])), txs[-1]])
 
 
+def type_names():
+    """textx/lang.py: BASE_TYPE_NAMES (rule names of the rules listed in BASE_TYPE_RULES) and the extra name of ALL_TYPE_NAMES"""
+    tree, _ = parse_file("textx/lang.py")
+    assigns = {n.targets[0].id: n.value for n in tree.body if isinstance(n, ast.Assign) and len(n.targets) == 1 and isinstance(n.targets[0], ast.Name)}
+    btr = assigns.get("BASE_TYPE_RULES")
+    need(isinstance(btr, ast.DictComp) and ast.unparse(btr.key) == "rule.rule_name" and ast.unparse(btr.value) == "rule"
+         and len(btr.generators) == 1 and isinstance(btr.generators[0].iter, ast.List) and not btr.generators[0].ifs, "BASE_TYPE_RULES changed")
+    need(ast.unparse(assigns.get("BASE_TYPE_NAMES")) == "list(BASE_TYPE_RULES.keys())", "BASE_TYPE_NAMES changed")
+    allt = assigns.get("ALL_TYPE_NAMES")
+    need(isinstance(allt, ast.BinOp) and isinstance(allt.op, ast.Add) and ast.unparse(allt.left) == "BASE_TYPE_NAMES" and isinstance(allt.right, ast.List)
+         and len(allt.right.elts) == 1 and isinstance(allt.right.elts[0], ast.Constant) and isinstance(allt.right.elts[0].value, str), "ALL_TYPE_NAMES changed")
+    names = []
+    for e in btr.generators[0].iter.elts:
+        need(isinstance(e, ast.Name) and isinstance(assigns.get(e.id), ast.Call), "BASE_TYPE_RULES lists something unexpected")
+        call = assigns[e.id]
+        rn = [k.value for k in call.keywords if k.arg == "rule_name"]
+        if not rn and len(call.args) >= 2 and ast.unparse(call.func) == "_":
+            rn = [call.args[1]]
+        need(len(rn) == 1 and isinstance(rn[0], ast.Constant) and isinstance(rn[0].value, str), "rule name of %s not found" % e.id)
+        names.append(rn[0].value)
+    return names, allt.right.elts[0].value
+
+
 def compute():
     """(chain, limit, {name: tx}) read from the current source"""
     tree, _ = parse_file("textx/export.py")
@@ -451,8 +497,9 @@ def compute():
     for s in stmts:
         if isinstance(s, ast.FunctionDef):
             need(s.name in ("_export", "_export_subgraph"), "model_export_to_file: unexpected nested function " + s.name)
-            inner += [t for _, t in Fn(s, consts).writes()]
-    need(len(inner) >= 6, "model_export_to_file: output statements not found")
+            whole = Fn(s, consts).structured()
+            inner += [whole] if whole is not None else [t for _, t in Fn(s, consts).writes()]
+    need(len(inner) >= 4, "model_export_to_file: output statements not found")
     model_doc = ("Cat", [top[0][1], ("Star", ("Alt", inner)), top[1][1]])
 
     # ---- metamodel export
@@ -471,6 +518,8 @@ def translate():
              "  [" + ";\n   ".join("(%d%%N, %s)" % (ord(a), coq_codes(b)) for a, b in chain) + "].",
              "Definition repr_limit : nat := %d." % limit,
              "Definition export_header : list N := %s." % coq_codes(model_doc[1][0][1] if model_doc[1][0][0] == "Lit" else ""),
+             "Definition base_type_names : list (list N) := [%s]." % "; ".join(coq_codes(x) for x in type_names()[0]),
+             "Definition object_name : list N := %s." % coq_codes(type_names()[1]),
              "Definition model_doc : tx :=\n  %s." % coq_tx(simp(model_doc)),
              "Definition metamodel_doc : tx :=\n  %s." % coq_tx(simp(mm_doc)),
              "Definition plantuml_doc : tx :=\n  %s." % coq_tx(simp(pu_doc)),
